@@ -1,8 +1,8 @@
 package harness
 
 // C07 — quarantine: drives the REAL quarantine keeper (through its MsgServer), the REAL bank
-// keeper (MsgSend / MsgMultiSend through the bank MsgServer, InputOutputCoinsProv as the
-// exchange module calls it) and the real marker send restriction on one app; after every
+// keeper (MsgSend / MsgMultiSend through the bank MsgServer, InputOutputCoinsProv with several
+// inputs, SendCoins under quarantine.WithBypass as the exchange module calls it) and the real marker send restriction on one app; after every
 // operation the whole relevant state is dumped canonically.
 
 import (
@@ -367,6 +367,20 @@ func (e *quarEnv) exec(line string) string {
 			_, err := e.bankSrv.Send(ctx, &banktypes.MsgSend{FromAddress: from.String(), ToAddress: to.String(), Amount: cs})
 			return err
 		}
+	case ws[0] == "bsend" && len(ws) == 4:
+		// bank keeper SendCoins under quarantine.WithBypass: the exchange module's settlement/payment route
+		from, ok1 := e.addr(ws[1])
+		to, ok2 := e.addr(ws[2])
+		cs, ok3 := quarParseCoins(ws[3])
+		if !ok1 || !ok2 || !ok3 {
+			return "bad-op"
+		}
+		f = func(ctx sdk.Context) error {
+			if !cs.IsValid() || !cs.IsAllPositive() {
+				return sdkerrors.ErrInvalidCoins.Wrap("bsend")
+			}
+			return e.app.BankKeeper.SendCoins(quarantine.WithBypass(ctx), from, to, cs)
+		}
 	case ws[0] == "msend" && len(ws) == 3:
 		from, ok1 := e.addr(ws[1])
 		if !ok1 {
@@ -665,12 +679,14 @@ func (g *quarGen) op(hot []string) string {
 			ups = append(ups, f+":"+Pick(g.r, []string{"a", "d", "u", "a"}))
 		}
 		return "auto " + to + " " + JoinOr(ups, "|")
-	case k < 42:
+	case k < 38:
 		t := to
 		if g.r.Chance(5) {
 			t = quarHolder
 		}
 		return fmt.Sprintf("send %s %s %s", g.acct(), t, g.coins())
+	case k < 42:
+		return fmt.Sprintf("bsend %s %s %s", g.acct(), to, g.coins())
 	case k < 52:
 		n := 1 + g.r.Intn(3)
 		var outs []string
